@@ -299,9 +299,34 @@ func builtinMakeValidator(env *lisp.LEnv, args *lisp.LVal) *lisp.LVal {
 }
 
 // finds the correct validation handler for the type
+// checkConstraints rejects, when a validator is BUILT, a constraint list
+// containing something that is not a constraint.  Left to validation time the
+// bad element only surfaces as a bad-arguments error of the inner validator,
+// which s:not and the guard of s:when read as "the inner constraint failed":
+// (s:not (s:make-validator "x" s:int 5)) then passes for every input.
+func checkConstraints(constraints []*lisp.LVal) *lisp.LVal {
+	for _, c := range constraints {
+		if c != nil && c.Type == lisp.LError {
+			return c
+		}
+		if !isValidator(c) {
+			return lisp.ErrorConditionf(BadArgs,
+				"Value is not a schema constraint: %v. Constraints must be built by the s package (s:int, s:has-key, s:gt, ...) or by libschema.NewValidator; an ordinary function cannot be used as one.",
+				c)
+		}
+	}
+	return nil
+}
+
 func getHandler(env *lisp.LEnv, in *lisp.LVal, name string, constraints []*lisp.LVal) *lisp.LVal {
 	lType, _ := lisp.GoString(in)
 	var res *lisp.LVal
+	switch lType {
+	case String, Int, Float, Number, Array, SortedMap, Fun, Bool, Any:
+		if lerr := checkConstraints(constraints); lerr != nil {
+			return lerr
+		}
+	}
 	switch lType {
 	case String:
 		res = builtinCheckString(env, name, constraints)
@@ -565,6 +590,9 @@ func builtinCheckBool(_ *lisp.LEnv, name string, constraints []*lisp.LVal) *lisp
 func builtinCheckTaggedVal(env *lisp.LEnv, name string, constraints []*lisp.LVal) *lisp.LVal {
 	var rest *lisp.LVal
 	if len(constraints) == 0 || constraints[0].Type != lisp.LString {
+		if lerr := checkConstraints(constraints); lerr != nil {
+			return lerr
+		}
 		rest = builtinCheckAny(env, constraints)
 	} else {
 		subtype := constraints[0]
